@@ -31,7 +31,7 @@ func isBadgerWriteCall(c ssa.CallInstruction) bool {
 	if isBadgerTxnMethod(f, "Set", "SetEntry", "Delete") {
 		return true
 	}
-	if f.Pkg() != nil && f.Pkg().Path() == pkgBadger && badgerWriteHelpers[f.Name()] {
+	if f.Pkg() != nil && f.Pkg().Path() == pkgBadger && badgerWriteHelpers[an.Ident(f.Name())] {
 		sig := f.Type().(*types.Signature)
 		return sig.Recv() == nil
 	}
@@ -176,7 +176,7 @@ func runC13(p *an.Prog, r *an.Run, tier string) {
 			switch {
 			case isBadgerTxnMethod(f, "Set", "Delete") && len(a) >= 2:
 				keyArg = a[1]
-			case f.Pkg() != nil && f.Pkg().Path() == pkgBadger && (f.Name() == "setItem" || f.Name() == "setExpiringItem") && len(a) >= 2:
+			case f.Pkg() != nil && f.Pkg().Path() == pkgBadger && (an.Ident(f.Name()) == "setItem" || an.Ident(f.Name()) == "setExpiringItem") && len(a) >= 2:
 				keyArg = a[1]
 			case an.IsFunc(f, badgerLib, "NewEntry") && len(a) >= 1:
 				keyArg = a[0]
@@ -196,7 +196,7 @@ func runC13(p *an.Prog, r *an.Run, tier string) {
 						}
 					}
 					if cc, ok := n.(*ssa.Call); ok {
-						if b, ok := cc.Call.Value.(*ssa.Builtin); ok && (b.Name() == "append" || b.Name() == "copy") {
+						if b, ok := cc.Call.Value.(*ssa.Builtin); ok && (an.Ident(b.Name()) == "append" || an.Ident(b.Name()) == "copy") {
 							copied = true
 						}
 					}
@@ -250,7 +250,7 @@ func runC13(p *an.Prog, r *an.Run, tier string) {
 						}
 						if fv.Name() == "Steps" {
 							if sl, ok := st.Val.(*ssa.Slice); ok && sl.Low == nil && sl.High == nil {
-								if g, ok := sl.X.(*ssa.Global); ok && g.Name() == "migrations" {
+								if g, ok := sl.X.(*ssa.Global); ok && an.Ident(g.Name()) == "migrations" {
 									okSteps = true
 								}
 							}
